@@ -843,7 +843,7 @@ func (p *parser) parseEnvVar() (*EnvVar, error) {
 	}
 	envVar.Max = max
 
-	if err := p.expectPunct(punctLeftSquareBrace); err != nil {
+	if err := p.expectPunct(punctRightSquareBrace); err != nil {
 		return nil, err
 	}
 
